@@ -8,6 +8,19 @@ simulations, value vectors (recorded at the calculator boundary), `beta_values_d
 `change_init_values`, `fix_betas`; they are compared with the Lean model (`IdM.prepare`,
 `freeValues`, `fixedValues`, `bounds`, `dictToList`, `changeInit`, `fixBetas`) and the property oracle
 (likelihood as a function of the dictionary is invariant; everything is attached to names).
+
+Two further streams:
+* sequences of calls on ONE numbering (formula owned by a `BIOGEME` object, or prepared once with
+  `Expression.prepare`; `prepare_ids=False`): `get_value_c(betas=dict)`, `get_value_and_derivatives(betas=dict,
+  named_results=True)`, `betas=None`, the function of `create_function` on a vector, `change_init_values` (of the
+  expression / of the BIOGEME object), `calculate_likelihood`, `simulate`.  Oracle (independent closed-form evaluation
+  of the specification): at every call with a dictionary the named parameters take the dictionary value and the
+  others their current starting value, whatever earlier calls supplied; values, sums and named derivatives are
+  those of the by-name valuation; same under an order-changing renaming.  Model: `IdM.step/run` (Model/IdSeq.lean).
+* the five kinds of element (free / fixed parameter, random variable, draw, column): every pair of kinds sharing a
+  name, through `BIOGEME(formula)`, `BIOGEME({..two formulas..})`, `IdManager([f])`, `IdManager([f, g])`,
+  `Expression.prepare`, must be refused; distinct names (also an element written twice) must be accepted and numbered
+  sorted-by-kind.  Model: `IdM.prepare` with its random-variable and draw lists.
 """
 
 from __future__ import annotations
@@ -36,13 +49,19 @@ MANIFEST = dict(
     technique='Lean 4 theorems over the id-table model (any linearly ordered name type) + differential correspondence under renamings/reorderings',
     note='Partial: "estimates up to optimiser tolerance" is checked on real quick_estimate runs in the thorough tier only (optimiser external); '
     'a dictionary entry naming a FIXED parameter is ignored by get_value_and_derivatives (modelled as the code does; the property only requires '
-    'fixed parameters to keep the value they were given).',
+    'fixed parameters to keep the value they were given). A call with betas=None on a shared numbering re-uses whatever vector the previous '
+    'call left (modelled as the code does, no oracle: the property speaks of dictionaries). After change_init_values names a FIXED parameter '
+    'the Beta expression has the new value but the prepared IdManager keeps the old one in fixed_betas_values (modelled as the code does; the '
+    'oracle does not judge values of such a sequence because "the value it was given" is not determined by the statement).',
 )
 TRUSTED = ['Python string comparison = code-point order = Lean String order', 'the engine evaluates what it is given (C01)']
 ASSUMPTIONS = []
 RULE = (
     'specifications = sum of 2-6 terms over 2-6 parameters (free/fixed, bounds) x {term reordering, bijective renaming changing the sorted order} '
-    'x partial dictionaries; non-trivial = the renaming is not order preserving or the dictionary is a strict non-empty subset'
+    'x partial dictionaries; non-trivial = the renaming is not order preserving or the dictionary is a strict non-empty subset; '
+    'sequences = 4-8 calls (dictionary / no dictionary / vector evaluations, change_init_values, calculate_likelihood, simulate) on one numbering, '
+    'original and renamed; non-trivial = a dictionary call omits a free parameter that the previous dictionary or vector call set; '
+    'kinds = 1-2 names per kind over 1-2 formulas x 5 entry points, every pair of kinds clashing + random mixtures; non-trivial = a random variable or a draw is present'
 )
 TOL = 1e-10
 
@@ -293,7 +312,7 @@ def check_spec(ctx, res, spec, rng):
     reqs = []
     for s in (spec, reordered, renamed):
         dd = [[k, f2b(v)] for k, v in s['dict'].items()]
-        reqs.append({'op': 'table', 'decls': decls_json(s), 'cols': s['cols'], 'dict': dd})
+        reqs.append({'op': 'table', 'decls': decls_json(s), 'cols': s['cols'], 'rvs': [], 'draws': [], 'dict': dd})
         reqs.append({'op': 'changeInit', 'decls': decls_json(s), 'dict': dd})
         reqs.append({'op': 'fixBetas', 'decls': decls_json(s), 'dict': dd})
 
@@ -372,7 +391,454 @@ def duplicates_check(ctx, res, rng):
             if refused != (obs['biogeme'] != 'ok'):
                 res.diverge('duplicate detection', case, ans, obs)
 
-        ctx.batch.add({'op': 'table', 'decls': decls, 'cols': cols, 'dict': []}, cb)
+        ctx.batch.add({'op': 'table', 'decls': decls, 'cols': cols, 'rvs': [], 'draws': [], 'dict': []}, cb)
+
+
+# ------------------------------------------------------------------------------------------------
+# Sequences of calls on ONE numbering (a formula owned by a BIOGEME object, or prepared once):
+# every call that takes a dictionary must override the named parameters only, whatever the
+# earlier calls supplied.
+# ------------------------------------------------------------------------------------------------
+
+
+def spec_value_grad(spec, vals):
+    """independent evaluation: per-row values of the specification and the gradient of their sum with respect to
+    every parameter, by name (closed forms of the four term kinds)"""
+    names = [p['name'] for p in spec['params']]
+    values, grad = [], {n: 0.0 for n in names}
+    for row in spec['rows']:
+        x = dict(zip(spec['cols'], row))
+        tot = 0.0
+        for ti in spec['order']:
+            t = spec['terms'][ti]
+            n, m, xv = names[t['p']], names[t['q']], x[t['col']]
+            b = vals[n]
+            if t['kind'] == 'lin':
+                tot += b * xv
+                grad[n] += xv
+            elif t['kind'] == 'exp':
+                e = math.exp(0.25 * b * xv)
+                tot += e
+                grad[n] += 0.25 * xv * e
+            elif t['kind'] == 'sq':
+                tot += -((b - xv) * (b - xv))
+                grad[n] += -2.0 * (b - xv)
+            else:
+                tot += b * vals[m] * xv
+                grad[n] += vals[m] * xv
+                grad[m] += b * xv
+        values.append(tot)
+    return values, grad
+
+
+def _partial(rng, names, p=0.45):
+    return {n: G._dy(rng, -1, 1) for n in names if rng.random() < p}
+
+
+def gen_ops(rng, spec, owner):
+    """a sequence of public calls; vectors are stored BY NAME (the harness lays them out in the reported order)"""
+    names = [p['name'] for p in spec['params']]
+    free = [p['name'] for p in spec['params'] if not p['fixed']]
+    ops = []
+    for _ in range(rng.randint(3, 7)):
+        r = rng.random()
+        if r < 0.45:
+            ops.append({'k': 'evalDict', 'dict': _partial(rng, names), 'how': rng.choice(['values', 'named'])})
+        elif r < 0.55:
+            ops.append({'k': 'evalNone'})
+        elif r < 0.68:
+            ops.append({'k': 'setVector', 'x': {n: G._dy(rng, -1, 1) for n in free}})
+        elif r < 0.82:
+            via = rng.choice(['biogeme', 'expression']) if owner == 'biogeme' else 'expression'
+            ops.append({'k': 'changeInit', 'via': via, 'dict': _partial(rng, names, 0.35)})
+        elif owner == 'biogeme':
+            if r < 0.91:
+                ops.append({'k': 'like', 'x': {n: G._dy(rng, -1, 1) for n in free}})
+            else:
+                ops.append({'k': 'sim', 'dict': {n: G._dy(rng, -1, 1) for n in names if n in free or rng.random() < 0.3}})
+        else:
+            ops.append({'k': 'evalDict', 'dict': _partial(rng, names), 'how': 'values'})
+    ops.append({'k': 'evalDict', 'dict': _partial(rng, names, 0.3), 'how': 'values'})
+    return ops
+
+
+def rename_ops(ops, rho):
+    out = []
+    for op in ops:
+        o = dict(op)
+        for key in ('dict', 'x'):
+            if key in o:
+                o[key] = {rho[k]: v for k, v in o[key].items()}
+        out.append(o)
+    return out
+
+
+def observe_seq(spec, ops, owner):
+    """real code: one numbering, the calls in order; what came back and what reached the engine at each call"""
+    import biogeme.biogeme as bio
+
+    case = to_case(spec)
+    objs = G.build(case)
+    root = objs[case['roots'][0]]
+    db = G.database(case)
+    out = {'steps': []}
+    with core.scratch():
+        B = None
+        if owner == 'biogeme':
+            B = bio.BIOGEME(db, root)
+            B.modelName = 'c03seq'
+            target = B.log_like
+        else:
+            root.prepare(db, 0)
+            target = root
+        idm = target.id_manager
+        free = list(idm.free_betas.names)
+        out['free'], out['fixed'] = free, list(idm.fixed_betas.names)
+        fn = None
+        with recording() as log:
+            for op in ops:
+                n0, st = len(log), {}
+                k = op['k']
+                if k == 'evalDict' and op['how'] == 'values':
+                    st['values'] = [float(v) for v in np.asarray(target.get_value_c(database=db, betas=dict(op['dict']), prepare_ids=False)).reshape(-1)]
+                elif k == 'evalDict':
+                    r = target.get_value_and_derivatives(betas=dict(op['dict']), database=db, gradient=True, hessian=False, bhhh=False,
+                                                         aggregation=True, prepare_ids=False, named_results=True)
+                    st['sum'], st['grad'] = float(r.function), {n: float(v) for n, v in r.gradient.items()}
+                elif k == 'evalNone':
+                    st['values'] = [float(v) for v in np.asarray(target.get_value_c(database=db, betas=None, prepare_ids=False)).reshape(-1)]
+                elif k == 'setVector':
+                    if fn is None:
+                        fn = target.create_function(database=db, gradient=True, hessian=False, bhhh=False)
+                    r = fn([op['x'][n] for n in free])
+                    st['sum'], st['grad'] = float(r.function), {n: float(v) for n, v in r.gradient.items()}
+                elif k == 'changeInit':
+                    (B if op['via'] == 'biogeme' else target).change_init_values(dict(op['dict']))
+                elif k == 'like':
+                    st['sum'] = float(B.calculate_likelihood([op['x'][n] for n in free], scaled=False))
+                elif k == 'sim':
+                    st['values'] = [float(v) for v in B.simulate(dict(op['dict'])).iloc[:, 0].to_numpy()]
+                else:
+                    raise ValueError(k)
+                if len(log) > n0:
+                    st['free'], st['fixed'] = log[-1].get('free'), log[-1].get('fixed')
+                out['steps'].append(st)
+        out['final_vec'] = [float(v) for v in idm.free_betas_values]
+        out['final_fixed'] = [float(v) for v in idm.fixed_betas_values]
+        out['final_decls'] = sorted([[b.name, int(b.status != 0), float(b.initValue)] for b in objs if type(b).__name__ == 'Beta'])
+    return out
+
+
+def _close_all(a, b):
+    return len(a) == len(b) and all(core.close(u, v, rel=1e-9, abs_=1e-11) for u, v in zip(a, b))
+
+
+def seq_oracle(res, spec, ops, owner, o, tag, case):
+    """the property on one observed sequence: a dictionary overrides the named parameters only (the others are at their
+    current starting value, fixed ones at the value they were given), vectors are in the reported order, values and
+    derivatives are those of the by-name valuation"""
+    cur = {p['name']: p['init'] for p in spec['params']}
+    fixed = {p['name'] for p in spec['params'] if p['fixed']}
+    free = [n for n in sorted(cur) if n not in fixed]
+    touched_fixed = set()
+    where = 'Expression.get_value_and_derivatives (betas=..., prepare_ids=False)'
+
+    def viol(what, obs, exp, wh=where, i=None):
+        res.violate(f'{what} [{tag}, {owner}-owned formula, call {i}: {ops[i]["k"] if i is not None else ""}]', case, obs, exp, where=wh)
+
+    if o['free'] != free:
+        viol('reported free parameters are not the sorted free names', o['free'], free, 'IdManager.prepare')
+        return
+    for i, (op, st) in enumerate(zip(ops, o['steps'])):
+        k = op['k']
+        if k == 'changeInit':
+            for n, v in op['dict'].items():
+                cur[n] = v
+                if n in fixed:
+                    touched_fixed.add(n)
+            continue
+        if k == 'evalNone':
+            continue  # the property does not say which values a call without dictionary uses
+        if k == 'evalDict':
+            vals = {n: (op['dict'][n] if (n in op['dict'] and n not in fixed) else cur[n]) for n in cur}
+        elif k in ('setVector', 'like'):
+            vals = dict(cur, **op['x'])
+        else:
+            vals = dict(cur, **{n: v for n, v in op['dict'].items() if n not in fixed})
+        ambiguous = bool(touched_fixed)  # a change_init_values naming a fixed parameter: "the value it was given" is not determined
+        if 'free' in st and st['free'] is not None:
+            got = dict(zip(o['free'], st['free']))
+            exp = {n: vals[n] for n in free}
+            if {n: f2b(v) for n, v in got.items()} != {n: f2b(v) for n, v in exp.items()}:
+                viol('values handed to the engine are not (named -> dictionary value, not named -> starting value)', got, exp, i=i)
+                return
+            gotf = {n: v for n, v in zip(o['fixed'], st['fixed']) if n not in touched_fixed}
+            expf = {n: cur[n] for n in fixed if n not in touched_fixed}
+            if {n: f2b(v) for n, v in gotf.items()} != {n: f2b(v) for n, v in expf.items()}:
+                viol('fixed parameters do not keep the value they were given', gotf, expf, i=i)
+                return
+        if ambiguous:
+            continue
+        ev, eg = spec_value_grad(spec, vals)
+        wh = {'like': 'BIOGEME.calculate_likelihood', 'sim': 'BIOGEME.simulate', 'setVector': 'Expression.create_function'}.get(k, where)
+        if 'values' in st and not _close_all(st['values'], ev):
+            viol('values are not those of the by-name valuation', st['values'], ev, wh, i)
+            return
+        if 'sum' in st and not core.close(st['sum'], sum(ev), rel=1e-9, abs_=1e-11):
+            viol('sum over the rows is not that of the by-name valuation', st['sum'], sum(ev), wh, i)
+            return
+        if 'grad' in st:
+            expg = {n: eg[n] for n in free}
+            if sorted(st['grad']) != free or not _close_all([st['grad'][n] for n in free], [expg[n] for n in free]):
+                viol('derivatives are not attached to the names of the parameters', st['grad'], expg, wh, i)
+                return
+
+
+def model_ops(ops, free):
+    out, idx = [], []
+    for i, op in enumerate(ops):
+        k = op['k']
+        if k == 'evalDict':
+            out.append({'k': 'evalDict', 'dict': [[n, f2b(v)] for n, v in op['dict'].items()]})
+        elif k == 'evalNone':
+            out.append({'k': 'evalNone'})
+        elif k == 'setVector':
+            out.append({'k': 'setVector', 'x': [f2b(op['x'][n]) for n in free]})
+        elif k == 'changeInit':
+            out.append({'k': 'changeInitB' if op['via'] == 'biogeme' else 'changeInitE', 'dict': [[n, f2b(v)] for n, v in op['dict'].items()]})
+        else:
+            continue  # calculate_likelihood / simulate take their values as arguments and keep nothing
+        idx.append(i)
+    return out, idx
+
+
+def leak_shape(spec, ops):
+    """the sequence can show a leak: a dictionary call omits a free parameter that an earlier call set to another value"""
+    free = {p['name'] for p in spec['params'] if not p['fixed']}
+    dirty = set()
+    for op in ops:
+        if op['k'] == 'evalDict':
+            if (dirty & free) - set(op['dict']):
+                return True
+            dirty = set(op['dict'])
+        elif op['k'] in ('setVector',):
+            dirty = set(op['x'])
+    return False
+
+
+def check_seq(ctx, res, spec, ops, owner, rng, rho=None):
+    names0 = [p['name'] for p in spec['params']]
+    if rho is None:
+        rho, _ = order_reversing(names0, rng)
+    variants = [('original', spec, ops), ('renamed', rename_spec(spec, rho), rename_ops(ops, rho))]
+    case = {'seq': {'spec': {k: spec[k] for k in ('params', 'terms', 'order', 'cols', 'rows', 'dict')}, 'ops': ops, 'owner': owner, 'rename': rho}}
+    res.count(case, nontrivial=leak_shape(spec, ops))
+    res.tally('seq:' + owner)
+    for op in ops:
+        res.tally('seqop:' + op['k'])
+    for tag, sp, oo in variants:
+        try:
+            o = observe_seq(sp, oo, owner)
+        except Exception as e:  # noqa: BLE001
+            res.violate(f'a valid sequence of calls fails ({tag}): {core.exc_kind(e)}: {str(e)[:200]}', case, core.exc_kind(e), 'accepted', where='sequence of calls')
+            return
+        nv = len(res.violations)
+        seq_oracle(res, sp, oo, owner, o, tag, case)
+        if len(res.violations) > nv:
+            return
+        mops, idx = model_ops(oo, o['free'])
+
+        def cb(ans, o=o, oo=oo, idx=idx, tag=tag):
+            if 'duplicates' in ans:
+                res.diverge(f'model refuses a specification the library accepts (sequence, {tag})', case, ans, o['free'])
+                return
+            if [ans['free'], ans['fixed']] != [o['free'], o['fixed']]:
+                res.diverge(f'parameter lists (sequence, {tag})', case, [ans['free'], ans['fixed']], [o['free'], o['fixed']])
+                return
+            for mo, i in zip(ans['outs'], idx):
+                st = o['steps'][i]
+                got = None if 'free' not in st else {'free': [f2b(v) for v in st['free']], 'fixed': [f2b(v) for v in st['fixed']]}
+                if mo != got:
+                    res.diverge(f'vectors handed to the engine at call {i} ({oo[i]["k"]}, {tag})', case,
+                                None if mo is None else {k: [b2f(v) for v in mo[k]] for k in mo}, {k: st.get(k) for k in ('free', 'fixed')})
+                    return
+            if ans['finalVec'] != [f2b(v) for v in o['final_vec']] or ans['finalFixed'] != [f2b(v) for v in o['final_fixed']]:
+                res.diverge(f'vectors kept by the IdManager after the sequence ({tag})', case,
+                            [[b2f(v) for v in ans['finalVec']], [b2f(v) for v in ans['finalFixed']]], [o['final_vec'], o['final_fixed']])
+            md = sorted([[x['name'], int(x['fixed']), b2f(x['init'])] for x in ans['finalDecls']])
+            if md != o['final_decls']:
+                res.diverge(f'declarations after the sequence ({tag})', case, md, o['final_decls'])
+
+        ctx.batch.add({'op': 'seq', 'decls': decls_json(sp), 'cols': sp['cols'], 'ops': mops}, cb)
+
+
+# ------------------------------------------------------------------------------------------------
+# The five kinds of element: any name shared by two kinds is refused, through every way of numbering
+# ------------------------------------------------------------------------------------------------
+
+KINDS = ['free', 'fixed', 'rv', 'draw', 'col']
+KIND_NAMES = {
+    'free': ['b_time', 'asc', 'B2', 'b10'], 'fixed': ['mu', 'scale', 'B1', 'b2'], 'rv': ['omega', 'eta', 'Z', 'b1'],
+    'draw': ['xi', 'eps', 'Y', 'b3'], 'col': ['x1', 'x2', 'income', 'age'],
+}
+ENTRIES = ['biogeme', 'biogeme_dict', 'idmanager', 'idmanager_two', 'prepare']
+
+
+def gen_kinds(rng, clash=None):
+    """elements of the five kinds, spread over one or two formulas; `clash` = (kind, later kind) shares one name between them"""
+    cols = list(KIND_NAMES['col'])[: rng.randint(2, 4)]
+    present = {k for k in KINDS[:4] if rng.random() < 0.6}
+    if clash:
+        present |= set(clash) - {'col'}
+    if not present:
+        present = {'free'}
+    names = {}
+    for k in KINDS[:4]:
+        if k in present:
+            pool = list(KIND_NAMES[k])
+            rng.shuffle(pool)
+            names[k] = pool[: rng.randint(1, 2)]
+    if clash:
+        k1, k2 = clash
+        shared = rng.choice(cols) if k2 == 'col' else rng.choice(names[k2])
+        names[k1][rng.randrange(len(names[k1]))] = shared
+    els = [{'kind': k, 'name': n, 'f': rng.randrange(2)} for k in names for n in names[k]]
+    for c in cols:
+        if rng.random() < 0.6:
+            els.append({'kind': 'col', 'name': c, 'f': rng.randrange(2)})
+    if rng.random() < 0.4:  # the same element written twice: not a clash
+        e = rng.choice(els)
+        els.append({'kind': e['kind'], 'name': e['name'], 'f': rng.randrange(2)})
+    rng.shuffle(els)
+    return {'elements': els, 'cols': cols, 'entry': rng.choice(ENTRIES), 'draws': rng.choice([3, 5])}
+
+
+def kinds_expected(case):
+    """the names that designate two different kinds (oracle: straight from the statement)"""
+    by = {k: set() for k in KINDS}
+    for e in case['elements']:
+        by[e['kind']].add(e['name'])
+    by['col'] |= set(case['cols'])  # every column of the database is a variable
+    clashes = set()
+    for i, k1 in enumerate(KINDS):
+        for k2 in KINDS[i + 1:]:
+            clashes |= by[k1] & by[k2]
+    return by, sorted(clashes)
+
+
+def build_kinds(case):
+    import pandas as pd
+    import biogeme.database as dbm
+    from biogeme.expressions import Beta, Variable, RandomVariable, bioDraws, MonteCarlo, Integrate, Numeric, exp
+
+    db = dbm.Database('t', pd.DataFrame({c: [0.5 + i, 1.25 - i] for i, c in enumerate(case['cols'])}))
+    parts = {0: [], 1: []}
+    for j, e in enumerate(case['elements']):
+        k, n = e['kind'], e['name']
+        x = Variable(case['cols'][j % len(case['cols'])])
+        if k == 'free':
+            t = Beta(n, 0.5, None, None, 0) * x
+        elif k == 'fixed':
+            t = Beta(n, 0.25, None, None, 1) * x
+        elif k == 'rv':
+            om = RandomVariable(n)
+            t = Integrate(exp(-om * om / Numeric(2.0)) * om * om, n)
+        elif k == 'draw':
+            t = MonteCarlo(bioDraws(n, 'NORMAL') * x)
+        else:
+            t = Variable(n) * Numeric(0.5)
+        parts[e['f']].append(t)
+    fs = []
+    for f in (0, 1):
+        if parts[f]:
+            tot = parts[f][0]
+            for t in parts[f][1:]:
+                tot = tot + t
+            fs.append(tot)
+    return db, fs
+
+
+def observe_kinds(case):
+    import biogeme.biogeme as bio
+    from biogeme.expressions.idmanager import IdManager
+
+    db, fs = build_kinds(case)
+    entry = case['entry']
+    one = fs[0] if len(fs) == 1 else fs[0] + fs[1]
+    o = {}
+    with core.scratch():
+        try:
+            if entry == 'biogeme':
+                idm = bio.BIOGEME(db, one).id_manager
+            elif entry == 'biogeme_dict':
+                idm = bio.BIOGEME(db, {'log_like': fs[0], 'other': fs[-1]} if len(fs) == 2 else {'first': fs[0]}).id_manager
+            elif entry == 'idmanager':
+                idm = IdManager([one], db, case['draws'])
+            elif entry == 'idmanager_two':
+                idm = IdManager(fs, db, case['draws'])
+            else:
+                one.prepare(db, case['draws'])
+                idm = one.id_manager
+            o['accepted'] = True
+            o['all'] = list(idm.elementary_expressions.names)
+            o['kinds'] = [list(idm.free_betas.names), list(idm.fixed_betas.names), list(idm.random_variables.names), list(idm.draws.names), list(idm.variables.names)]
+            o['indices'] = {n: int(i) for n, i in idm.elementary_expressions.indices.items()}
+        except Exception as e:  # noqa: BLE001
+            o['accepted'] = False
+            o['error'] = core.exc_kind(e)
+            o['msg'] = str(e)[:200]
+    return o
+
+
+def check_kinds(ctx, res, case):
+    by, clashes = kinds_expected(case)
+    o = observe_kinds(case)
+    present = tuple(k for k in KINDS if by[k])
+    res.count({'kinds': case}, nontrivial=bool(by['rv'] or by['draw']))
+    res.tally('kinds-entry:' + case['entry'])
+    res.tally('kinds:' + ('clash' if clashes else 'distinct'))
+    c = {'kinds': case}
+    where = 'IdManager.prepare (duplicates)'
+    if clashes:
+        if o['accepted'] or o.get('error') != 'BiogemeError':
+            which = {n: [k for k in KINDS if n in by[k]] for n in clashes}
+            res.violate(f'a name used for two different kinds of element is not refused (entry {case["entry"]}): {which}', c, o, 'BiogemeError', where=where)
+            return
+    else:
+        if not o['accepted']:
+            res.violate(f'names that designate one kind each are refused (entry {case["entry"]}): {o.get("msg")}', c, o, 'accepted', where=where)
+            return
+        # numbering: sorted free, sorted fixed, sorted random variables, sorted draws, then the columns of the table
+        exp_kinds = [sorted(by['free']), sorted(by['fixed']), sorted(by['rv']), sorted(by['draw']), list(case['cols'])]
+        if o['kinds'] != exp_kinds or o['all'] != sum(exp_kinds, []) or o['indices'] != {n: i for i, n in enumerate(sum(exp_kinds, []))}:
+            res.violate('the numbering does not list every element once under its own name', c, [o['kinds'], o['all']], exp_kinds, where='IdManager.prepare')
+            return
+
+    decls = [{'name': e['name'], 'fixed': e['kind'] == 'fixed', 'init': f2b(0.25 if e['kind'] == 'fixed' else 0.5), 'lb': None, 'ub': None}
+             for e in case['elements'] if e['kind'] in ('free', 'fixed')]
+
+    def cb(ans):
+        if ('duplicates' in ans) != (not o['accepted']):
+            res.diverge('duplicate detection over the five kinds', c, ans, o)
+        elif o['accepted'] and ans['all'] != o['all']:
+            res.diverge('numbering over the five kinds', c, ans['all'], o['all'])
+        elif not o['accepted'] and sorted(ans['duplicates']) != clashes:
+            res.diverge('names reported as duplicated by the model vs the clashing names', c, ans['duplicates'], clashes)
+
+    ctx.batch.add({'op': 'table', 'decls': decls, 'cols': case['cols'], 'rvs': [e['name'] for e in case['elements'] if e['kind'] == 'rv'],
+                   'draws': [e['name'] for e in case['elements'] if e['kind'] == 'draw'], 'dict': []}, cb)
+
+
+def kinds_stream(ctx, res, rng, n_random):
+    pairs = [(a, b) for i, a in enumerate(KINDS) for b in KINDS[i + 1:]]
+    # every pair of kinds through every entry point, then random mixtures
+    for pair in pairs:
+        for entry in ENTRIES:
+            case = gen_kinds(rng, clash=pair)
+            case['entry'] = entry
+            check_kinds(ctx, res, case)
+    for _ in range(n_random):
+        check_kinds(ctx, res, gen_kinds(rng, clash=rng.choice(pairs + [None, None, None, None])))
 
 
 def estimate_check(ctx, res, rng):
@@ -429,6 +895,17 @@ CORPUS = [
 ]
 
 
+SEQ_CORPUS = [
+    # the second dictionary omits what the first one named; then a vector; then a changed starting value
+    {'spec': CORPUS[0],
+     'ops': [{'k': 'evalDict', 'dict': {'b10': 0.75}, 'how': 'values'}, {'k': 'evalDict', 'dict': {'b2': -0.5}, 'how': 'values'},
+             {'k': 'evalDict', 'dict': {}, 'how': 'named'}, {'k': 'setVector', 'x': {'b10': 1.5, 'b2': 0.125}},
+             {'k': 'evalDict', 'dict': {'b2': 0.25}, 'how': 'values'}, {'k': 'changeInit', 'via': 'expression', 'dict': {'b10': 0.5}},
+             {'k': 'evalDict', 'dict': {'b2': 1.0}, 'how': 'named'}, {'k': 'evalDict', 'dict': {}, 'how': 'values'}],
+     'rename': {'a': 'p002', 'b10': 'p001', 'b2': 'p000'}},
+]
+
+
 def check(ctx) -> Result:
     res = Result(rule=RULE, tolerance=f'relative {TOL} for likelihoods (summation order), exact (bit patterns) for vectors and bounds')
     rng = ctx.rng
@@ -439,6 +916,15 @@ def check(ctx) -> Result:
         if len(res.violations) > 10:
             break
     duplicates_check(ctx, res, rng)
+    for c in SEQ_CORPUS:
+        for owner in ('biogeme', 'prepared'):
+            check_seq(ctx, res, c['spec'], c['ops'], owner, rng, rho=c['rename'])
+    for _ in range(ctx.n(60, 500)):
+        spec, owner = gen_spec(rng), rng.choice(['biogeme', 'prepared'])
+        check_seq(ctx, res, spec, gen_ops(rng, spec, owner), owner, rng)
+        if len(res.violations) > 10:
+            break
+    kinds_stream(ctx, res, rng, ctx.n(60, 500))
     for _ in range(ctx.n(1, 3)):
         estimate_check(ctx, res, rng)
     ctx.batch.flush()
@@ -449,20 +935,31 @@ def search(ctx, res, broken):
     rng = core.rng_for('C03-search', ctx.seed)
     r2 = Result()
     for _ in range(150):
-        check_spec(ctx, r2, gen_spec(rng), rng)
+        spec = gen_spec(rng)
+        check_spec(ctx, r2, spec, rng)
+        owner = rng.choice(['biogeme', 'prepared'])
+        check_seq(ctx, r2, spec, gen_ops(rng, spec, owner), owner, rng)
         if r2.violations:
             break
+    if not r2.violations:
+        kinds_stream(ctx, r2, rng, 150)
     ctx.batch.items.clear()
     res.violations.extend(r2.violations[:3])
 
 
 def replay(ctx, obj):
     case = obj.get('case') or {}
-    if 'spec' not in case:
-        return {'property_fails': False, 'note': 'no concrete input in this replay file'}
     r = Result()
     import random
 
-    check_spec(ctx, r, case['spec'], random.Random(0))
+    if 'spec' in case:
+        check_spec(ctx, r, case['spec'], random.Random(0))
+    elif 'seq' in case:
+        q = case['seq']
+        check_seq(ctx, r, q['spec'], q['ops'], q['owner'], random.Random(0), rho=q.get('rename'))
+    elif 'kinds' in case:
+        check_kinds(ctx, r, case['kinds'])
+    else:
+        return {'property_fails': False, 'note': 'no concrete input in this replay file'}
     ctx.batch.items.clear()
     return {'property_fails': bool(r.violations), 'violations': r.violations[:3]}
